@@ -216,6 +216,29 @@ func c09E2E(c *Ctx, stream string) {
 		if len(nreqs) > 0 {
 			c09Web(c, "e2e-numeric-web", wide, nil, nreqs)
 		}
+	case "e2e-paths":
+		// file names that EQUAL a prefix they are matched against (trim_path entries, the built-in
+		// /proc/self/cwd, source_path entries), with and without trailing slash, empty and "/"
+		for _, fnames := range [][]string{{"/proc/self/cwd", "dir", "dir/sub/x.go"}, {"/proc/self/cwd/", "dir/", "/"}, {"", ".", "/home/u/src"}} {
+			b := newC09ShapeBuilder("samples")
+			b.sample("leaf left main", 100)
+			b.sample("leaf right main", 60)
+			b.sample("other main", 5)
+			for i, f := range b.p.Function {
+				f.Filename = fnames[i%len(fnames)]
+			}
+			if b.p.CheckValid() != nil {
+				continue
+			}
+			cmdLines := c09MatrixLines(0, full)
+			for _, tp := range []string{"dir", "dir/", "/proc/self/cwd", "/", "dir:/home/u/src::/", "/home/u/src", ".", "dir/sub/x.go"} {
+				c09Session(c, "e2e-paths", b.p, append([]string{"trim_path=" + tp}, cmdLines...), true)
+				c09Session(c, "e2e-paths", b.p, append([]string{"source_path=" + tp, "trim_path=" + tp}, "list .", "weblist .", "top"), true)
+				c09CLI(c, "e2e-paths-cli", b.p, []string{"-top", "-trim_path=" + tp, "-output=out", "p"}, nil)
+				c09CLI(c, "e2e-paths-cli", b.p, []string{"-list=.", "-trim_path=" + tp, "-source_path=" + tp, "-output=out", "p"}, nil)
+			}
+			c09Web(c, "e2e-paths-web", b.p, []string{"-trim_path=dir:/proc/self/cwd"}, []c09Req{{"/", ""}, {"/flamegraph", ""}, {"/source", "f=."}, {"/top", ""}})
+		}
 	case "e2e-cli":
 		for ni, n := range c09FilterNames {
 			for vi, v := range c09LongValues(n) {
